@@ -214,10 +214,14 @@ def build():
                  kwargs={k: v for k, v in kwargs.items() if k not in ("event", "callback")})
             return NONE
         return m
-    C.ext("EventMgrIface.post", model=post("post"), trusted_reason="event posting (C01)")
+    NOFWD = ("W0: the QueuedEvent of the triggering queue event belongs to that event's dispatch only - it is never posted on "
+             "as an argument of another event (mode_<name>_will_start / _starting / _started): a handler of that event that "
+             "starts a mode would hand the SAME wait object to a second queue event, and the two dispatches block each other",
+             "not forwards_queue()")
+    C.ext("EventMgrIface.post", model=post("post"), requires=[NOFWD], trusted_reason="event posting (C01)")
     C.ext("EventMgrIface.post_queue", params=dict(event=Str, callback=Fn), model=post("post_queue"),
-          requires=[("a wait queue that is currently held is never forwarded into a nested queue event",
-                     "not forwards_held_queue()")],
+          requires=[NOFWD, ("a wait queue that is currently held is never forwarded into a nested queue event",
+                            "not forwards_held_queue()")],
           trusted_reason="EventManager.post_queue; the precondition is the wait-queue protocol needed by "
                          "_run_handlers_sequential")
 
@@ -231,6 +235,19 @@ def build():
             return VBool(False)
         return VBool(I.truth(I.read_field(qo.ref, "waiter")))
     C.helpers["forwards_held_queue"] = forwards_held_queue
+
+    def forwards_queue(I):
+        kw = I.frames[-1].env.get("**kwargs") or {}
+        q = kw.get("queue")
+        return VBool(q is not None and I.force(q).tag == "obj")
+    C.helpers["forwards_queue"] = forwards_queue
+
+    def keeps_queue(I, d):
+        dv = I.force(d)
+        if dv.tag != "dict":
+            return VBool(False)
+        return VBool(I.container(dv.ref).get("queue") is not None)
+    C.helpers["keeps_queue"] = keeps_queue
 
     def start_kwargs(I, name):
         if I.ctx.fork(2) == 0:
@@ -286,7 +303,9 @@ def build():
     C.fn("Mode.start", params=dict(mode_priority=Opt(Int), callback=Opt(Fn), kwargs=Init(start_kwargs)),
          modifies=["self._starting", "self._mode_start_wait_queue", "self._mode_start_wait_queue.waiter", "self.priority",
                    "self.start_event_kwargs", "self.start_callback", "kwargs.*", "kwargs['queue'].waiter"],
-         raises={}, note="only the wait-queue obligation at post_queue is of interest here (lifecycle: C07)")
+         ensures=[("W1: ... nor is it kept in start_event_kwargs (they are posted again with mode_<name>_started)",
+                   "implies(self._starting and not old(self._starting), not keeps_queue(self.start_event_kwargs))")],
+         raises={}, note="only the wait-queue obligations at post / post_queue are of interest here (lifecycle: C07)")
 
     # ------------------------------------------------------------------ coroutine handlers (add_async_handler)
     C.exc("CancelledError", "BaseException")
@@ -525,6 +544,9 @@ def queue_event_player_set():
     C.cls("QueueEventPlayer", file=QEP, bases=["ConfigPlayer"], fields=dict(
         machine=ObjS("MachineController", events=ObjS("EventManagerQ"))))
     C.fn("QueueEventPlayer._callback", inline=True, no_inv=True)
+    for demo_ in ("c02_mode_started_from_started_event_blocks.py", "c02_sibling_modes_share_queue.py"):
+        C.finite_checks.append(common.native_demo_check(demo_, "a mode started from another mode's lifecycle event does not "
+                                                               "share that mode's wait queue"))
     for demo_ in ("c02_queue_event_player_without_finished.py", "c02_queue_event_player_finished_with_args.py"):
         C.finite_checks.append(common.native_demo_check(demo_, "queue_event_player: the queue event is posted and "
                                                                "events_when_finished follows its completion"))
